@@ -167,7 +167,21 @@ template <class Front> struct Mp11 : boost::msm::backmp11::state_machine<Front, 
 namespace vf {
 template <class E> inline const E* anyptr(const boost::any& a) { return boost::any_cast<E>(&a); }
 template <class E> inline const E* anyptr(const std::any& a) { return std::any_cast<E>(&a); }
+// a user-declared Kleene event type (C18): holds a copy of whatever event it is constructed from
+struct UAny {
+    std::any a;
+    UAny() {}
+    template <class E, class = typename std::enable_if<!std::is_same<typename std::decay<E>::type, UAny>::value>::type>
+    UAny(E const& e) : a(e) {}
+    const std::type_info& type() const { return a.type(); }
+};
+template <class E> inline const E* anyptr(const UAny& u) { return std::any_cast<E>(&u.a); }
 }
+namespace boost { namespace msm { template <> struct is_kleene_event<vf::UAny> : std::true_type {}; } }
+#ifdef VF_UKLEENE
+#undef VF_KLEENE
+#define VF_KLEENE vf::UAny
+#endif
 namespace zoo {
 template <class Any> inline vf::AnyInfo vf_anyinfo_impl(Any const& a);
 }
@@ -181,6 +195,11 @@ template <> struct evinfo<std::any, void> {
     static int eid(const std::any& a) { return zoo::vf_anyinfo_impl(a).eid + 1000; }
     static int serial(const std::any& a) { return zoo::vf_anyinfo_impl(a).serial; }
     static int pay(const std::any& a) { return zoo::vf_anyinfo_impl(a).pay; }
+};
+template <> struct evinfo<UAny, void> {
+    static int eid(const UAny& a) { return zoo::vf_anyinfo_impl(a).eid + 1000; }
+    static int serial(const UAny& a) { return zoo::vf_anyinfo_impl(a).serial; }
+    static int pay(const UAny& a) { return zoo::vf_anyinfo_impl(a).pay; }
 };
 template <> struct evinfo<boost::msm::front::none, void> {
     static int eid(const boost::msm::front::none&) { return 0; }
